@@ -477,9 +477,23 @@ def main(out_path):
     # ---- read_single (the std::from_chars variant) -------------------------------------------
     ss = region('read_single', r'static\s+const\s+char\s*\*\s*read_single\s*\(')
     need([s[0] for s in ss] == ['if', 'decl', 'decl', 'if', 'return'], 'read_single')
-    need(body_of(ss[0][2])[0][0] == 'expr' and body_of(ss[0][2])[0][1][0] in ('un', 'post')
-         and body_of(ss[0][2])[0][1][1] == '++' and dotted(body_of(ss[0][2])[0][1][2]) == 'bufbegin',
+    plus_body = body_of(ss[0][2])
+    need(plus_body[0][0] == 'expr' and plus_body[0][1][0] in ('un', 'post')
+         and plus_body[0][1][1] == '++' and dotted(plus_body[0][1][2]) == 'bufbegin',
          '++bufbegin')
+    # after the skipped '+': nothing (a following '-' is then taken by from_chars), or exactly
+    # `if (bufbegin != bufend && *bufbegin == '-') throw read_error(...)`
+    def ref_stmts(text):
+        return cp.ast_hash(drop_asserts(cp.parse_statements(normalise(text))))
+    if len(plus_body) == 1:
+        o.const('singleRejectsPlusMinus', 'Bool', 'false',
+                "csv.tpp read_single: a '-' directly after the skipped '+' is not rejected")
+    else:
+        need(len(plus_body) == 2 and cp.ast_hash([plus_body[1]]) == ref_stmts(
+            "if (bufbegin != bufend && *bufbegin == '-') throw read_error(\"csv::read_row conversion failed '\");"),
+            "statement after ++bufbegin is not `if (bufbegin != bufend && *bufbegin == '-') throw read_error(...)`")
+        o.const('singleRejectsPlusMinus', 'Bool', 'true',
+                "csv.tpp read_single: `if (bufbegin != bufend && *bufbegin == '-') throw` after the skipped '+'")
     o.fn('singleSkipPlus', ss[0][1], "read_single: skip one leading '+'", 'B',
          ['bufbegin', 'bufend', 'beginCh'])
     fc = ss[1][3]
@@ -572,9 +586,30 @@ def main(out_path):
     o.regions['float_to_str_vw'] = {'file': 'implementation/util/print.tpp',
                                     'hash': __import__('hashlib').sha256(repr(toks).encode()).hexdigest()[:16]}
     o.const('lits_float_to_str_vw', 'List String',
-            lean_strlist(chars_and_strs(b) + [t for t in toks if t in ('signbit', 'isnan', 'scientific', 'fixed',
+            lean_strlist([l for l in chars_and_strs(b) if l.startswith("'")] + [t for t in toks if t in ('signbit', 'isnan', 'scientific', 'fixed',
                                                                       'general', 'hex', '!', '&&', '||')]),
             "print.tpp float_to_str_vw: '+' prefix for non-negative non-NaN, to_chars scientific")
+    # every element buffer of the printers: `std::array<char, N> buf;` with a literal N
+    decls = re.findall(r'std::array\s*<\s*char\s*,\s*([^>]+?)\s*>\s*buf\s*;', psrc)
+    need(len(decls) >= 4 and all(d.isdigit() for d in decls),
+         f'printer element buffers are not all `std::array<char, <literal>> buf;`: {decls}')
+    need(len(re.findall(r'\bbuf\s*;', psrc)) == len(decls), 'a printer buffer `buf` of another type')
+    o.const('printBufSizes', 'List Nat', '[' + ', '.join(decls) + ']',
+            'print.tpp: sizes of all element buffers (float_to_str, print_csv_impl, print_matlab_impl, '
+            'print_python_impl), in source order')
+    # the result of std::to_chars in float_to_str_vw: error code dropped (`auto [end, _]`) or checked
+    if re.search(r'auto\s*\[\s*end\s*,\s*_\s*\]\s*=\s*std::to_chars\s*\(', b):
+        o.const('floatToStrChecksEc', 'Bool', 'false',
+                'print.tpp float_to_str_vw: `auto [end, _] = std::to_chars(...)` — the error code is dropped')
+    else:
+        need(re.search(r'auto\s*\[\s*end\s*,\s*ec\s*\]\s*=\s*std::to_chars\s*\(', b) and
+             re.search(r'if\s*\(\s*ec\s*!=\s*std::errc\s*\{\s*\}\s*\)\s*throw\b', b),
+             'float_to_str_vw: result of std::to_chars neither `auto [end, _]` nor `auto [end, ec]` + `if (ec != std::errc{}) throw`')
+        o.const('floatToStrChecksEc', 'Bool', 'true',
+                'print.tpp float_to_str_vw: `if (ec != std::errc{}) throw` after std::to_chars')
+    need(re.search(r'std::to_chars\s*\(\s*begin\s*,\s*buf\.data\(\)\s*\+\s*buf\.size\(\)\s*,\s*value\s*,\s*'
+                   r'std::chars_format::scientific\s*,\s*precision\s*\)', b),
+         'float_to_str_vw: std::to_chars(begin, buf.data() + buf.size(), value, scientific, precision)')
     m = re.search(r'float_to_str_vw\s*\(\s*auto\s*&\s*buf\s*,\s*F\s+value\s*,\s*int\s+precision\s*=\s*([^)]*?)\)', psrc)
     need(m is not None, 'float_to_str_vw default precision')
     o.const('defaultPrecision', 'String', lean_str(re.sub(r'\s+', '', m.group(1))),
